@@ -367,14 +367,17 @@ def oracle_c04(cfgl, lines):
             return (n, f"{name}: {r}")
         if name in ("ins", "sins"):
             k, v = int(kv["k"]), int(kv["ver"])
-            ever.setdefault(k, set()).add(v); pending[k] = v
+            ever.setdefault(k, set()).add(v); pending.setdefault(k, []).append(v)
         elif name == "rm":
-            pending[int(kv["k"])] = None
+            pending.setdefault(int(kv["k"]), []).append(None)
         elif name == "wait":
-            # acknowledged as flushed: under write-on-eviction only what was evicted from memory before the wait
+            # acknowledged as flushed: under write-on-eviction only what was evicted from memory before the wait.
+            # Every intermediate state of the interval is recorded (a delete followed by an insert in one batch: the
+            # tombstone may reach the log before the new entry's index page - a crash in between reads as a miss).
             if woi or prev == "memevict":
-                for k, v in pending.items():
-                    acked.setdefault(k, []).append((wl, v))
+                for k, vs in pending.items():
+                    for v in vs:
+                        acked.setdefault(k, []).append((wl, v))
                 pending = {}
         elif name == "crashprobe":
             cut = int(kv["cut"])
@@ -398,7 +401,7 @@ def oracle_c04(cfgl, lines):
                 hist = [] if wrap else [(w, v) for (w, v) in acked.get(k, []) if w <= cut]
                 if hist:
                     w, v = hist[-1]
-                    later = {vv for (ww, vv) in acked.get(k, []) if ww > cut} | ({pending[k]} if k in pending else set())
+                    later = {vv for (ww, vv) in acked.get(k, []) if ww > cut} | set(pending.get(k, []))
                     allowed = {v} | later
                     if v is None:
                         if tomb and got is not None and got not in later:
